@@ -109,7 +109,7 @@ PROPS = {
         "verdict_is_spec": True,
         "modules": ["C04"],
         "streams": [{"name": "apply", "quick": 120, "thorough": 4800}, {"name": "cov", "quick": 150, "thorough": 4800}, {"name": "exec", "quick": 500, "thorough": 30000}],
-        "projection": "status",
+        "projection": "status_std",
         "oracles": [],
         "assumptions": ["Ed25519 verification and blake3 are parameters: the model is given the answers the real executor obtained (hook log) and a missing answer is a disagreement"],
     },
